@@ -343,8 +343,17 @@ def solve_obligation(ob: Obligation, timeout_ms=10000, use_cli=True, bounded=Fal
     if r == z3.sat and bounded:
         m = s.model()
         try:
-            ok = all(z3.is_true(m.eval(h, model_completion=True)) for h in ob.hyps) and \
-                z3.is_false(m.eval(ob.goal, model_completion=True))
+            # re-evaluate the quantifier-free part of the query under the model (a hypothesis that still contains a
+            # quantifier -- sets, uninterpreted-sort axioms -- cannot be evaluated and is left to the solver's word)
+            ok = True
+            for h in ob.hyps:
+                v = m.eval(h, model_completion=True)
+                if z3.is_false(v):
+                    ok = False
+                    break
+            gv = m.eval(ob.goal, model_completion=True)
+            if z3.is_true(gv):
+                ok = False
         except Exception:
             ok = False
         if ok:
